@@ -36,6 +36,7 @@ func NewPacketConn(ioc *IO, network, addr string, opts ...sonicopts.Option) (Pac
 	}
 
 	if err := syscall.Bind(fd, internal.ToSockaddr(localAddr)); err != nil {
+		_ = syscall.Close(fd)
 		return nil, err
 	}
 
@@ -192,7 +193,10 @@ func (c *packetConn) getWriteHandler(b []byte, to net.Addr, cb AsyncWriteCallbac
 }
 
 func (c *packetConn) Close() error {
-	atomic.StoreUint32(&c.closed, 1)
+	if !atomic.CompareAndSwapUint32(&c.closed, 0, 1) {
+		// already closed: the descriptor number may belong to somebody else by now
+		return io.EOF
+	}
 	_ = c.ioc.UnsetReadWrite(&c.slot)
 	c.ioc.Deregister(&c.slot)
 	return syscall.Close(c.slot.Fd)
